@@ -114,6 +114,10 @@ fn build_lock_script(
     script.push_opcode(opcodes::all::OP_CSV);
     script.push_opcode(opcodes::all::OP_DROP);
 
+    if pkscript.len() < 2 {
+        return Err("Invalid pkscript");
+    }
+
     let mut push_bytes = PushBytesBuf::new();
     push_bytes
         .extend_from_slice(pkscript.slice(2..).iter().as_slice())
